@@ -1,305 +1,11 @@
 /-
 C02 — Rendering never panics and never writes outside the viewport.
-
-The mechanism, link by link, as exact-arithmetic theorems about the model functions:
-
-  * `persp_w_pos`          a vertex inside the frustum that lies on the image of the perspective matrix
-                           (z = e22·w + e23 with e22 + 1 > 0, e23 < 0, i.e. far > near > 0) has w > 0
-  * `clip_keeps_relation`  every vertex the clipper outputs still satisfies that affine relation, so
-                           with C03 `clip_inside` every surviving vertex has −w ≤ x,y,z ≤ w and w > 0
-  * `ndc_in_square`, `screen_in_rect`   hence its NDC position is in [−1,1]² and its screen position,
-                           through the library's viewport matrix for (L,T)..(R,B), lies in [L,R]×[T,B]
-  * `edgeX_between`        edge points at heights between the endpoints stay between the endpoints' x
-  * `scan_rows_in_rect`    for a trapezoid whose vertices are within HALF A PIXEL of the rectangle
-                           (L−½ ≤ x < R+½, T−½ ≤ y < B+½ — the slack f32 rounding may use), every
-                           scanline has T ≤ y < B and L ≤ x0, x0 ≤ R, x1 ≤ R
-  * `rasterize_ok`         a scanline inside the buffer's bounds never hits the slice-index panics of
-                           target.rs, and leaves the buffer dimensions unchanged
-PARTIAL: (1) that f32 rounding keeps clipped NDC coordinates within the half-pixel slack, and the
-accumulated edge-stepping error below it, is not proved (no error analysis) — adversarial scenes
-through the library's own matrices with sentinel-filled buffers decide it per case; (2) the links
-are not composed into one `render_no_fault` theorem over whole scenes; (3) NaN-freedom of depth
-relies on C05 `scan_dvdx_den_ne_zero` / `scan_rows_imp_dy`.
+  `Retro.Props.C02.Links`   : the mechanism link by link (w > 0 after clipping, NDC square, viewport
+                              rectangle, half-pixel slack for scanlines, no slice-index panic)
+  `Retro.Props.C02.NoPanic` : the links composed — `drawTris_ok`, `render_ok`: in exact arithmetic,
+                              `render` of any scene whose clip-space vertices come from the library's
+                              perspective matrix completes without a panic, through the library's
+                              viewport matrix for a rectangle inside the buffer
 -/
-import Retro.Props.C03
-import Retro.Props.C04
-import Retro.Model.Render
-
-namespace Retro.Props.C02
-open Retro Retro.Clip Retro.Raster Retro.Render Retro.Lemmas.Clip Retro.Lemmas.Raster
-
-variable {K : Type} [Field K] [LinearOrder K] [IsStrictOrderedRing K]
-
-/-! ### Surviving vertices have w > 0 and project into the viewport rectangle -/
-
-/-- With `perspective(f, a, near..far)`, z_clip = e22·w + e23 where e22 = (far+near)/(far−near) and
-e23 = 2·far·near/(near−far); `far > near > 0` gives e22 + 1 > 0 and e23 < 0. -/
-theorem persp_coeffs (near far : K) (hn : 0 < near) (hf : near < far) :
-    0 < (far + near) / (far - near) + 1 ∧ 2 * far * near / (near - far) < 0 := by
-  have hd : 0 < far - near := by linarith
-  constructor
-  · have : (far + near) / (far - near) + 1 = 2 * far / (far - near) := by field_simp; ring
-    rw [this]; apply div_pos <;> linarith
-  · apply div_neg_of_pos_of_neg
-    · have : 0 < far := by linarith
-      positivity
-    · linarith
-
-theorem persp_w_pos (v : Vec4 K) (e22 e23 : K) (hin : Retro.Props.C03.Inside v)
-    (hrel : v.z = e22 * v.w + e23) (h22 : 0 < e22 + 1) (h23 : e23 < 0) : 0 < v.w := by
-  obtain ⟨h1, -, -, -, -, -⟩ := (Retro.Props.C03.inside_iff v).mp hin
-  -- −w ≤ z = e22·w + e23  ⇒  (e22 + 1)·w ≥ −e23 > 0
-  rw [hrel] at h1
-  by_contra hc
-  have hw : v.w ≤ 0 := not_lt.mp hc
-  nlinarith [mul_nonneg_of_nonpos_of_nonpos hw (le_of_lt (neg_neg_of_pos h22))]
-
-/-- The clipper's new vertices are lerps, so an affine relation between z and w survives clipping. -/
-theorem clip_keeps_relation (e22 e23 : K) (t : Tri K)
-    (ha : t.a.pos.z = e22 * t.a.pos.w + e23) (hb : t.b.pos.z = e22 * t.b.pos.w + e23)
-    (hc : t.c.pos.z = e22 * t.c.pos.w + e23) :
-    ∀ tri ∈ clipTri t, ∀ v ∈ Retro.Props.C03.triVerts tri, v.pos.z = e22 * v.pos.w + e23 := by
-  intro tri htri v hv
-  have hbase : ∀ v ∈ Retro.Props.C03.triVerts t, v.pos.z = e22 * v.pos.w + e23 := by
-    intro v hv
-    simp only [Retro.Props.C03.triVerts, List.mem_cons, List.mem_nil_iff, or_false] at hv
-    rcases hv with rfl | rfl | rfl <;> assumption
-  rcases Retro.Props.C03.clipTri_verts t tri htri v hv with ⟨_, hmem⟩ | hmem
-  · exact hbase v hmem
-  · have key : ∀ (ps : List (Plane K)) (vs : List (ClipVert K)),
-        (∀ v ∈ vs, v.pos.z = e22 * v.pos.w + e23) → ∀ u ∈ clipAll ps vs, u.pos.z = e22 * u.pos.w + e23 := by
-      intro ps
-      induction ps with
-      | nil => intro vs h u hu; exact h u (by simpa [clipAll] using hu)
-      | cons p ps ih =>
-        intro vs h u hu
-        refine ih (clipPlane p vs) ?_ u (by simpa [clipAll] using hu)
-        apply clipPlane_preserves (fun v => v.pos.z = e22 * v.pos.w + e23) p _ vs h
-        intro v0 v1 h0 h1 _
-        simp only [crossing, mkVert, lerpPos, lerp]
-        rw [h0, h1]; ring
-    exact key _ _ hbase v hmem
-
-/-- Inside the frustum with w > 0: normalised device coordinates lie in [−1, 1]. -/
-theorem ndc_in_square (v : Vec4 K) (hin : Retro.Props.C03.Inside v) (hw : 0 < v.w) :
-    -1 ≤ v.x / v.w ∧ v.x / v.w ≤ 1 ∧ -1 ≤ v.y / v.w ∧ v.y / v.w ≤ 1 := by
-  obtain ⟨-, -, h3, h4, h5, h6⟩ := (Retro.Props.C03.inside_iff v).mp hin
-  refine ⟨?_, ?_, ?_, ?_⟩
-  · rw [le_div_iff₀ hw]; linarith
-  · rw [div_le_one hw]; exact h4
-  · rw [le_div_iff₀ hw]; linarith
-  · rw [div_le_one hw]; exact h6
-
-/-- The library's viewport matrix for bounds (L,T)..(R,B) (mat.rs:647-660) sends the NDC square
-into the pixel rectangle. -/
-theorem screen_in_rect (L R T B : K) (hLR : L ≤ R) (hTB : T ≤ B) (v : Vec4 K)
-    (hin : Retro.Props.C03.Inside v) (hw : 0 < v.w) :
-    let dx := (R - L) / 2
-    let dy := (B - T) / 2
-    L ≤ (L + dx) + dx * (v.x / v.w) ∧ (L + dx) + dx * (v.x / v.w) ≤ R ∧
-    T ≤ (T + dy) + dy * (v.y / v.w) ∧ (T + dy) + dy * (v.y / v.w) ≤ B := by
-  intro dx dy
-  obtain ⟨h1, h2, h3, h4⟩ := ndc_in_square v hin hw
-  have hdx : 0 ≤ dx := by simp only [dx]; linarith
-  have hdy : 0 ≤ dy := by simp only [dy]; linarith
-  have e1 : L + dx + dx = R := by simp only [dx]; ring
-  have e2 : T + dy + dy = B := by simp only [dy]; ring
-  refine ⟨?_, ?_, ?_, ?_⟩ <;> nlinarith
-
-/-! ### Scanlines of a triangle within half a pixel of the rectangle stay inside it -/
-
-variable [FloorRing K]
-attribute [local instance] hasFloorK hasToNatK
-
-/-- A point of an edge at a height between the endpoints' heights lies between the endpoints in x. -/
-theorem edgeX_between (y0 y1 : K) (a b : List K) (c lo hi : K) (hlt : y0 < y1) (hc0 : y0 ≤ c) (hc1 : c ≤ y1)
-    (ha : lo ≤ nth0 a ∧ nth0 a < hi) (hb : lo ≤ nth0 b ∧ nth0 b < hi) :
-    lo ≤ edgeX y0 y1 a b c ∧ edgeX y0 y1 a b c < hi := by
-  unfold edgeX
-  have hd : 0 < y1 - y0 := by linarith
-  have ht0 : 0 ≤ (c - y0) / (y1 - y0) := div_nonneg (by linarith) hd.le
-  have ht1 : (c - y0) / (y1 - y0) ≤ 1 := by rw [div_le_one hd]; linarith
-  generalize (c - y0) / (y1 - y0) = t at ht0 ht1
-  constructor
-  · nlinarith [mul_nonneg ht0 (sub_nonneg.mpr hb.1), mul_nonneg (sub_nonneg.mpr ht1) (sub_nonneg.mpr ha.1)]
-  · have h1 := ha.2; have h2 := hb.2
-    rcases eq_or_lt_of_le ht0 with h | h
-    · subst h; simpa using h1
-    · nlinarith [mul_pos h (sub_pos.mpr h2), mul_nonneg (sub_nonneg.mpr ht1) (sub_nonneg.mpr h1.le)]
-
-/-- **Half-pixel slack.** If the four corner tuples of a trapezoid have x in [L−½, R+½) and the scan
-range satisfies T−½ ≤ y0, y1 < B+½, every scanline it emits lies inside rows T..B−1 and columns L..R. -/
-theorem scan_rows_in_rect (L R T B : Nat) (y0 y1 : K) (l0 l1 r0 r1 : List K)
-    (hl : l0.length = l1.length) (hl0 : 0 < l0.length) (hr : 0 < r0.length) (hr1 : 0 < r1.length)
-    (hT : (T : K) - 1 / 2 ≤ y0) (hB : y1 < (B : K) + 1 / 2)
-    (hx : ∀ v ∈ [l0, l1, r0, r1], (L : K) - 1 / 2 ≤ nth0 v ∧ nth0 v < (R : K) + 1 / 2) :
-    ∀ row ∈ scan y0 y1 l0 l1 r0 r1, T ≤ row.y ∧ row.y < B ∧ L ≤ row.x0 ∧ row.x0 ≤ R ∧ row.x1 ≤ R := by
-  intro row hrow
-  obtain ⟨k, hk, hget⟩ := List.mem_iff_getElem.mp hrow
-  have hlen := hk
-  rw [Retro.Props.C04.scan_length] at hlen
-  have hne : y1 - y0 ≠ 0 := by
-    intro h0
-    have : y1 = y0 := by linarith
-    subst this; simp at hlen
-  obtain ⟨row', hrow', hy, hx0, hx1, -⟩ := Retro.Props.C04.scan_get y0 y1 l0 l1 r0 r1 hne hl hl0 hr hr1 k hk
-  have : row' = row := by
-    rw [List.getElem?_eq_getElem hk] at hrow'; injection hrow' with e; rw [← e, hget]
-  subst this
-  -- rows
-  have hfT : (T : Int) ≤ ⌊y0 + 1 / 2⌋ := by
-    rw [Int.le_floor]; push_cast; linarith
-  have hfB : ⌊y1 + 1 / 2⌋ ≤ (B : Int) := by
-    rw [← Int.lt_add_one_iff, Int.floor_lt]; push_cast; linarith
-  -- the row's centre height lies in (y0, y1]
-  have hc0 : y0 ≤ roundUpHalf y0 + (k : K) := by
-    rw [roundUpHalf_eq]
-    have := Int.lt_floor_add_one (y0 + 1 / 2)
-    have hk0 : (0 : K) ≤ (k : K) := Nat.cast_nonneg k
-    linarith
-  have hc1 : roundUpHalf y0 + (k : K) ≤ y1 := by
-    rw [roundUpHalf_eq]
-    have hk' : (⌊y0 + 1 / 2⌋ : Int) + (k : Int) + 1 ≤ ⌊y1 + 1 / 2⌋ := by omega
-    have h1 : ((⌊y0 + 1 / 2⌋ + (k : Int) + 1 : Int) : K) ≤ y1 + 1 / 2 := by
-      have := Int.floor_le (y1 + 1 / 2)
-      calc ((⌊y0 + 1 / 2⌋ + (k : Int) + 1 : Int) : K) ≤ ((⌊y1 + 1 / 2⌋ : Int) : K) := by exact_mod_cast hk'
-        _ ≤ y1 + 1 / 2 := this
-    push_cast at h1
-    linarith
-  have hlt : y0 < y1 := by
-    rcases lt_or_gt_of_ne (sub_ne_zero.mp hne) with h | h
-    · -- y1 < y0 contradicts having rows
-      exfalso
-      have := Int.floor_le_floor (show y1 + 1 / 2 ≤ y0 + 1 / 2 by linarith)
-      omega
-    · exact h
-  have hL := edgeX_between y0 y1 l0 l1 _ _ _ hlt hc0 hc1 (hx l0 (by simp)) (hx l1 (by simp))
-  have hR := edgeX_between y0 y1 r0 r1 _ _ _ hlt hc0 hc1 (hx r0 (by simp)) (hx r1 (by simp))
-  have fl (x : K) (h : (L : K) - 1 / 2 ≤ x) : (L : Int) ≤ ⌊x + 1 / 2⌋ := by
-    rw [Int.le_floor]; push_cast; linarith
-  have fr (x : K) (h : x < (R : K) + 1 / 2) : ⌊x + 1 / 2⌋ ≤ (R : Int) := by
-    rw [← Int.lt_add_one_iff, Int.floor_lt]; push_cast; linarith
-  have a1 := fl _ hL.1
-  have a2 := fr _ hL.2
-  have a3 := fr _ hR.2
-  refine ⟨?_, ?_, ?_, ?_, ?_⟩
-  · rw [hy]; omega
-  · rw [hy]; omega
-  · rw [hx0]; omega
-  · rw [hx0]; omega
-  · rw [hx1]; omega
-
-
-/-! ### A scanline inside the buffer never hits the slice-index panics -/
-
-section Buffers
-variable {α : Type} [Add α] [Sub α] [Mul α] [Div α] [Neg α] [LT α] [DecidableLT α]
-  [OfNat α 0] [OfNat α 1] [OfNat α 2] [HasFloor α] [HasToNat α] {C : Type}
-
-theorem writeSpan_length {β : Type} (row : List β) (x : Nat) (vals : List β) :
-    (writeSpan row x vals).length = row.length := by
-  induction row generalizing x vals with
-  | nil => cases vals <;> simp [writeSpan]
-  | cons r rs ih =>
-    cases vals with
-    | nil => simp [writeSpan]
-    | cons v vs =>
-      cases x with
-      | zero => simp [writeSpan, ih]
-      | succ x => simp [writeSpan, ih]
-
-theorem setRow_length {β : Type} (rows : List (List β)) (y : Nat) (r : List β) :
-    (setRow rows y r).length = rows.length := by
-  induction rows generalizing y with
-  | nil => simp [setRow]
-  | cons r0 rs ih => cases y <;> simp [setRow, ih]
-
-theorem mem_setRow {β : Type} (rows : List (List β)) (y : Nat) (r x : List β) (h : x ∈ setRow rows y r) :
-    x ∈ rows ∨ x = r := by
-  induction rows generalizing y with
-  | nil => simp [setRow] at h
-  | cons r0 rs ih =>
-    cases y with
-    | zero =>
-      simp only [setRow, List.mem_cons] at h
-      rcases h with h | h
-      · exact Or.inr h
-      · exact Or.inl (List.mem_cons_of_mem _ h)
-    | succ y =>
-      simp only [setRow, List.mem_cons] at h
-      rcases h with h | h
-      · exact Or.inl (by simp [h])
-      · rcases ih y h with h | h
-        · exact Or.inl (List.mem_cons_of_mem _ h)
-        · exact Or.inr h
-
-/-- A `W`×`H` target: every row of the colour buffer (and of the depth buffer, if any) has `W` entries. -/
-def WFT (t : Target α C) (W H : Nat) : Prop :=
-  t.color.length = H ∧ (∀ row ∈ t.color, row.length = W) ∧
-  ∀ d, t.depth = some d → d.length = H ∧ ∀ row ∈ d, row.length = W
-
-/-- **No index panic.** A scanline with `y < H` and `max x1 x0 ≤ W` rasterizes without panicking into a
-`W`×`H` target, and the target keeps its dimensions. -/
-theorem rasterize_ok (ctx : Ctx) (shade : List α → Option C) (t : Target α C) (W H : Nat) (sl : Scanline α)
-    (hwf : WFT t W H) (hy : sl.y < H) (hx : Nat.max sl.x1 sl.x0 ≤ W) :
-    ∃ t' i o, rasterize ctx shade t sl = .ok (t', i, o) ∧ WFT t' W H := by
-  obtain ⟨hc, hrows, hdep⟩ := hwf
-  have hcy : sl.y < t.color.length := by omega
-  unfold rasterize
-  simp only
-  rw [List.getElem?_eq_getElem hcy]
-  simp only
-  have hcl : (t.color[sl.y]).length = W := hrows _ (List.getElem_mem hcy)
-  rw [if_neg (by omega)]
-  cases hd : t.depth with
-  | none =>
-    simp only
-    refine ⟨_, _, _, rfl, ?_, ?_, ?_⟩
-    · simp only [setRow_length]; exact hc
-    · intro row hrow
-      rcases mem_setRow _ _ _ _ hrow with h | h
-      · exact hrows row h
-      · rw [h, writeSpan_length]; exact hcl
-    · intro d h; simp only [hd] at h; cases h
-  | some dbuf =>
-    obtain ⟨hdl, hdrows⟩ := hdep dbuf hd
-    have hdy : sl.y < dbuf.length := by omega
-    simp only
-    rw [List.getElem?_eq_getElem hdy]
-    simp only
-    have hzl : (dbuf[sl.y]).length = W := hdrows _ (List.getElem_mem hdy)
-    rw [if_neg (by omega)]
-    refine ⟨_, _, _, rfl, ?_, ?_, ?_⟩
-    · simp only [setRow_length]; exact hc
-    · intro row hrow
-      rcases mem_setRow _ _ _ _ hrow with h | h
-      · exact hrows row h
-      · rw [h, writeSpan_length]; exact hcl
-    · intro d h
-      simp only [Option.some.injEq] at h
-      subst h
-      refine ⟨by simp only [setRow_length]; exact hdl, ?_⟩
-      intro row hrow
-      rcases mem_setRow _ _ _ _ hrow with h | h
-      · exact hdrows row h
-      · rw [h, writeSpan_length]; exact hzl
-
-/-- All scanlines of a list, each inside the buffer: the whole loop completes. -/
-theorem rasterizeAll_ok (ctx : Ctx) (shade : List α → Option C) (W H : Nat) (sls : List (Scanline α))
-    (hin : ∀ sl ∈ sls, sl.y < H ∧ Nat.max sl.x1 sl.x0 ≤ W) (t : Target α C) (st : Stats) (hwf : WFT t W H) :
-    ∃ t' st', rasterizeAll ctx shade t st sls = .ok (t', st') ∧ WFT t' W H := by
-  induction sls generalizing t st with
-  | nil => exact ⟨t, st, rfl, hwf⟩
-  | cons sl rest ih =>
-    obtain ⟨hy, hx⟩ := hin sl (by simp)
-    obtain ⟨t1, i, o, hr, hwf1⟩ := rasterize_ok ctx shade t W H sl hwf hy hx
-    simp only [rasterizeAll, hr]
-    exact ih (fun s hs => hin s (List.mem_cons_of_mem _ hs)) t1 _ hwf1
-
-end Buffers
-
-/-! ### Non-vacuity -/
-
-example : persp_coeffs (K := Rat) 1 10 (by norm_num) (by norm_num) = persp_coeffs 1 10 (by norm_num) (by norm_num) := rfl
-
-end Retro.Props.C02
+import Retro.Props.C02.Links
+import Retro.Props.C02.NoPanic
